@@ -5637,13 +5637,28 @@ def merge_parts(parts, reassign="voice"):
     # create a new part and fill it with all objects in other parts
     new_part = Part(parts[0].id, quarter_duration=lcm)
 
-    note_arrays = [part.note_array(include_staff=True) for part in parts]
-    # find the unique number of voices for each part (voice numbers start from 1)
-    unique_voices = [np.unique(note_array["voice"]) for note_array in note_arrays]
-    # find the unique number of staves for each part (a missing staff, which
-    # the note array encodes as 0, counts as staff 1)
+    # the voices and staves in use in each part are taken from its elements:
+    # the note array leaves out rests, unpitched notes and tied notes, and the
+    # clefs, words and directions also carry a staff (voice numbers start from
+    # 1; a missing staff counts as staff 1)
+    with_staff = (GenericNote, Words, Direction, Clef)
+    # find the unique number of voices for each part
+    unique_voices = [
+        np.unique(
+            [e.voice for e in part.iter_all(GenericNote, include_subclasses=True)]
+        )
+        for part in parts
+    ]
+    # find the unique number of staves for each part
     unique_staves = [
-        np.unique(np.maximum(note_array["staff"], 1)) for note_array in note_arrays
+        np.unique(
+            [
+                e.staff if e.staff is not None else 1
+                for cls in with_staff
+                for e in part.iter_all(cls, include_subclasses=True)
+            ]
+        )
+        for part in parts
     ]
     # find the maximum number of voices for each part (voice numbers start from 1)
     maximum_voices = [max(unique_voice, default=1) for unique_voice in unique_voices]
@@ -5725,7 +5740,7 @@ def merge_parts(parts, reassign="voice"):
                     if isinstance(e, GenericNote):
                         e.voice = e.voice + sum(maximum_voices[:p_ind])
                 elif reassign == "staff":
-                    if isinstance(e, (GenericNote, Words, Direction, Clef)):
+                    if isinstance(e, with_staff):
                         e.staff = (e.staff if e.staff is not None else 1) + sum(
                             maximum_staves[:p_ind]
                         )
@@ -5734,7 +5749,7 @@ def merge_parts(parts, reassign="voice"):
                     if isinstance(e, GenericNote):
                         # new voice is computed as the sum of voices in staves in previous parts, plus the current
                         e.voice = voice_mapping[e.voice]
-                    if isinstance(e, (GenericNote, Words, Direction, Clef)):
+                    if isinstance(e, with_staff):
                         e.staff = staff_mapping[e.staff if e.staff is not None else 1]
                 new_part.add(e, start=new_start, end=new_end)
 
